@@ -37,6 +37,7 @@ type c06Case struct {
 	StopFirst  bool          // Handler.Stop() of handler 1 is called (and Stopped() awaited) while m1 is inside its handler function, then Close arrives
 	FailSecond bool          // the second handler's Subscribe fails: Run returns an error from its start-up, the first handler keeps working
 	EarlyClose bool          // Close is called while Run is still subscribing the handlers (slow Subscribe calls), no messages
+	HCGate     bool          // every handler's close-watcher goroutine is held right before its select until Close has given its signal and Run has cancelled the handlers' context: both are visible when it looks
 	NilPub     bool          // the last handler was added with a nil Publisher (it returns no messages): at shutdown it is a handler like any other, with nothing to close
 	Conf       bool          // conformance run: internal hook events are recorded as well (RouterLifecycleImplTrace)
 }
@@ -105,6 +106,12 @@ func runC06(c *Ctx) error {
 		// a handler without a publisher (nil)
 		cases = append(cases, c06Case{Class: "nil-publisher/" + src, Source: src, Label: "handler", Closers: 1, Handlers: 1, Msgs: 2, Timeout: 3 * time.Second, NilPub: true})
 		cases = append(cases, c06Case{Class: "nil-publisher/" + src, Source: src, Label: "router.handle.start", Closers: 2, Handlers: 3, Msgs: 1, Timeout: 3 * time.Second, NilPub: true, Repeat: true})
+	}
+	// the close-watchers of the handlers look at their select only when the close signal AND the cancelled context are both there
+	for _, src := range []string{"scripted", "gochannel"} {
+		for _, nc := range []int{1, 2} {
+			cases = append(cases, c06Case{Class: "late-close-watchers/" + src, Source: src, Label: "", Closers: nc, Handlers: 3, Msgs: nc - 1, Timeout: 3 * time.Second, HCGate: true})
+		}
 	}
 	// ... also when the subscriber's Close() drains (the receive loop does not end before the handler does)
 	cases = append(cases, c06Case{Class: "timeout-draining/scripted", Source: "scripted", Label: "handler", Closers: 1, Handlers: 1, Msgs: 1, Slow: 3 * time.Second, Timeout: 100 * time.Millisecond, Drain: true})
@@ -310,6 +317,14 @@ func c06RunC(r *tr.Run, rc *tr.Run, cs c06Case) (gateReached bool) {
 			return []*message.Message{message.NewMessage(msg.UUID+".o", nil)}, nil
 		})
 	}
+	var hcGates []*sched.Gate
+	if cs.HCGate {
+		for h := 1; h <= cs.Handlers; h++ {
+			g := sched.Park("router.handleclose.before_select", fmt.Sprintf("%sh%d", prefix, h))
+			hcGates = append(hcGates, g)
+			defer g.Release()
+		}
+	}
 	ctx, cancel := context.WithCancel(context.Background())
 	defer cancel()
 	runDone := make(chan struct{})
@@ -436,6 +451,15 @@ func c06RunC(r *tr.Run, rc *tr.Run, cs c06Case) (gateReached bool) {
 	wait := 30 * time.Millisecond
 	if cs.Slow > 0 {
 		wait = cs.Slow
+	}
+	if len(hcGates) > 0 {
+		time.Sleep(25 * time.Millisecond) // (Close has signalled, Run has cancelled the context of its handlers)
+		for _, g := range hcGates {
+			if g.Arrived(HangBound / 10) {
+				gateReached = true
+			}
+			g.Release()
+		}
 	}
 	if gate != nil {
 		select {
